@@ -12,6 +12,13 @@ for l in open('/tmp/confirm_extra.log') if os.path.exists('/tmp/confirm_extra.lo
         d = json.loads(l)
         conf[(d['id'], d['mut'])] = d
 needs = json.load(open(os.path.join(V, 'tools', 'seeded_needs.json')))
+# ROUND2: second batch of sub-agent changes (written against the repaired tree, told to avoid the first batch)
+conf2 = {}
+if os.path.exists('/tmp/confirm2_all.log'):
+    for l in open('/tmp/confirm2_all.log'):
+        if l.startswith('{'):
+            d = json.loads(l)
+            conf2[(d['id'], d['mut'])] = d
 n = 0
 for (pid, mut), c in sorted(conf.items()):
     ok = c['applies'] == 'yes' and c['suite_with_change'] == 'pass' and c['demo_with_change'] == 'fail' and c['demo_without_change'] == 'pass'
@@ -29,6 +36,32 @@ for (pid, mut), c in sorted(conf.items()):
     meta = {'id': sid, 'breaks_property': pid, 'summary': needs.get(sid, {}).get('summary', ''), 'needs_to_manifest': needs.get(sid, {}).get('needs', ''),
             'written_by': 'independent sub-agent given only the property text and a scratch worktree of the pinned commit',
             'confirmed_here': {'how': 'tools/confirm_seeded.sh %s %s (scratch worktree of /repo HEAD, removed afterwards)' % (pid, mut),
+                               'patch_applies_to_repo_head': True, 'existing_suite_with_change': 'pass (26 unit + 4 integration + 1 doc test)',
+                               'demo_with_change': 'fails', 'demo_without_change': 'passes'},
+            'demo': 'demo.rs is an integration test: copy to /repo/tests/ and run cargo test --offline --test <name>'}
+    old = os.path.join(dst, 'meta.json')
+    if os.path.exists(old):
+        prev = json.load(open(old))
+        if 'detected_by' in prev:
+            meta['detected_by'] = prev['detected_by']
+    json.dump(meta, open(old, 'w'), indent=1)
+    n += 1
+for (pid, mut), c in sorted(conf2.items()):
+    ok = c['applies'] == 'yes' and c['suite_with_change'] == 'pass' and c['demo_with_change'] == 'fail' and c['demo_without_change'] == 'pass'
+    if not ok:
+        print('skipping (not confirmed):', pid, mut, c)
+        continue
+    sid = '%s-r2%s' % (pid, mut[-1])
+    dst = os.path.join(V, 'seeded', sid)
+    os.makedirs(dst, exist_ok=True)
+    src = '/tmp/mut2/%s.out' % pid
+    shutil.copy(os.path.join(src, mut + '.diff'), os.path.join(dst, 'patch.diff'))
+    shutil.copy(os.path.join(src, mut + '_demo.rs'), os.path.join(dst, 'demo.rs'))
+    if os.path.exists(os.path.join(src, 'notes.md')):
+        shutil.copy(os.path.join(src, 'notes.md'), os.path.join(dst, 'author_notes.md'))
+    meta = {'id': sid, 'breaks_property': pid, 'summary': needs.get(sid, {}).get('summary', ''), 'needs_to_manifest': needs.get(sid, {}).get('needs', ''),
+            'written_by': 'independent sub-agent (second round: told which two changes were already known, asked for a different kind), given only the property text and a scratch worktree',
+            'confirmed_here': {'how': 'MUTDIR=/tmp/mut2 tools/confirm_seeded.sh %s %s (scratch worktree of /repo HEAD, removed afterwards)' % (pid, mut),
                                'patch_applies_to_repo_head': True, 'existing_suite_with_change': 'pass (26 unit + 4 integration + 1 doc test)',
                                'demo_with_change': 'fails', 'demo_without_change': 'passes'},
             'demo': 'demo.rs is an integration test: copy to /repo/tests/ and run cargo test --offline --test <name>'}
